@@ -4,6 +4,7 @@ import math
 import random
 
 from vpm import history
+from vpm import seams
 from vpm.oracles import sphere as sp
 from vpm.oracles import twobody as tb
 
@@ -88,8 +89,10 @@ def jd_of_year(y):
 
 
 def hvec(cls, jde, tofk5=False):
-    from pymeeus.Epoch import Epoch
-    L, B, R = cls.geometric_heliocentric_position(Epoch(jde), tofk5=tofk5)
+    # reference computations take their instants without the calendar
+    # round trip of Epoch(<number>) (vpm/seams.py)
+    L, B, R = cls.geometric_heliocentric_position(seams.raw_epoch(jde),
+                                                  tofk5=tofk5)
     return tuple(R * c for c in sp.vec(L(), B()))
 
 
@@ -126,7 +129,7 @@ def case_planet(mon, planet, jde):
             break
         tau = new
     lo, la = sp.lonlat(d)
-    eps = C.true_obliquity(Epoch(jd))
+    eps = C.true_obliquity(seams.raw_epoch(jd))
     a0, d0 = C.ecliptical2equatorial(Angle(lo), Angle(la), eps)
     err = sp.sep_ll(ra(), dec(), a0(), d0())
     mon.stat("planet_direction_err_deg " + planet, err, case)
@@ -135,13 +138,14 @@ def case_planet(mon, planet, jde):
                    error_deg=err))
     # elongation: angle between the returned direction and the apparent Sun
     # at the caller's epoch
-    ls, bs, rs = Sun.apparent_geocentric_position(Epoch(jd))
+    ls, bs, rs = Sun.apparent_geocentric_position(seams.raw_epoch(jd))
     sa, sd = C.ecliptical2equatorial(ls, bs, eps)
     want = sp.sep_ll(ra(), dec(), sa(), sd())
     # the same with the Sun taken one light-time earlier (known mechanism)
     tau1 = LT * sp.norm(sub(hvec(cls, jd), E))
-    ls2, bs2, _r = Sun.apparent_geocentric_position(Epoch(jd - tau1))
-    eps2 = C.true_obliquity(Epoch(jd - tau1))
+    ls2, bs2, _r = Sun.apparent_geocentric_position(
+        seams.raw_epoch(jd - tau1))
+    eps2 = C.true_obliquity(seams.raw_epoch(jd - tau1))
     sa2, sd2 = C.ecliptical2equatorial(ls2, bs2, eps2)
     want_shift = sp.sep_ll(ra(), dec(), sa2(), sd2())
     ident = (planet, jd)
@@ -393,6 +397,17 @@ def run(mon, spec):
         for j in strad:
             mon.cls("conjunction-at-the-march-equinox", (p, j), [p, j])
         eps += strad
+        # instants at and shortly after calendar seams: the light-time step
+        # (epoch -= tau) lands on the other side of the seam
+        for lab, j in seams.seam_jdes(rng, 24 if spec.get("tier") ==
+                                      "thorough" else 8):
+            if jd_of_year(-2000.0) < j < jd_of_year(4000.0):
+                mon.cls("calendar-seam", (p, j), [p, lab, j])
+                eps.append(j)
+        if spec["idx"] == 0 or spec.get("tier") == "thorough":
+            for lab, j in seams.just_after_boundaries(rng):
+                mon.cls("calendar-seam", (p, j), [p, lab, j])
+                eps.append(j)
         if spec["idx"] == 0:
             eps += [jd_of_year(-2000.0), jd_of_year(4000.0), J2000,
                     2448976.5]
